@@ -165,7 +165,7 @@ pub fn check(s: &Scn, what: &str) -> Option<(String, String)> {
                 }
             }
         }
-        if what == "c06" && !six_dof && *name != "inverse_continuing" && sols.is_empty() && s.q[4].sin().abs() > 0.05 {
+        if what == "c06" && !six_dof && s.limits.is_none() && *name != "inverse_continuing" && sols.is_empty() && s.q[4].sin().abs() > 0.05 {
             // a 5-DOF robot must answer: the pose was generated from reachable joints
             return Some((format!("{} returned nothing for a reachable pose", name), "at least one solution".into()));
         }
@@ -192,6 +192,11 @@ pub fn check(s: &Scn, what: &str) -> Option<(String, String)> {
                 }
             }
         }
+    }
+    if what == "c04" {
+        // the 5-DOF continuation entry point: every angle is the representative nearest to previous (J6 IS previous J6)
+        let prevr = if s.prev[0].is_nan() { match &s.limits { Some((f, t, w)) => Constraints::new(*f, *t, *w).centers, None => JOINTS_AT_ZERO } } else { s.prev };
+        for x in &entries[3].1 { for i in 0..6 { if i == 5 && s.prev[0].is_nan() { continue; } if (x[i] - prevr[i]).abs() > PI + 1e-9 { return Some((format!("inverse_continuing_5dof: joint {} = {} is not the representative nearest to previous {}", i + 1, x[i], prevr[i]), "|x - prev| <= pi".into())); } } }
     }
     if what == "c04" && six_dof {
         let sols = &entries[1].1;
@@ -274,7 +279,14 @@ fn gen(rng: &mut Rng, what: &str, round: usize) -> Scn {
     let mut prev = q;
     for i in 0..6 { prev[i] += rng.range(-0.3, 0.3); }
     match what {
-        "c06" => { if round % 2 == 0 { p.dof = 5; } if round % 4 == 1 { p.c4 = 0.0; } if round % 3 == 0 { p.offsets[4] = rng.range(-0.6, 0.6); } }
+        "c06" => { if round % 2 == 0 { p.dof = 5; } if round % 4 == 1 { p.c4 = 0.0; } if round % 3 == 0 { p.offsets[4] = rng.range(-0.6, 0.6); }
+            if round % 5 == 3 {
+                // limits whose J6 range is not centred at zero + the CONSTRAINT_CENTERED sentinel: J6 stays the caller's previous J6
+                let mut f = [-3.0; 6]; let mut t = [3.0; 6]; f[5] = 0.2; t[5] = 0.6;
+                limits = Some((f, t, 0.0));
+                prev = [f64::NAN, 0.0, 0.0, 0.0, 0.0, [0.0, 0.3, 0.5][rng.below(3)]];
+            }
+        }
         "c05" if round % 2 == 0 => {
             // exactly singular J5 = 0 (model), previous realises the pose; J4 + J6 anywhere incl. across +-pi
             q = rand_joints(rng, 2.0);
@@ -346,6 +358,7 @@ fn gen(rng: &mut Rng, what: &str, round: usize) -> Scn {
             }
             if round % 7 == 0 { p.dof = 5; }
             if what == "c04" && round % 5 == 0 { prev = [f64::NAN, 0.0, 0.0, 0.0, 0.0, 0.0]; }
+            if what == "c04" && round % 6 == 1 { for i in [3usize, 5] { let a = prev[i] + TWO_PI * (rng.below(3) as f64 - 1.0); if a.abs() <= TWO_PI { prev[i] = a; } } }
         }
         _ => {}
     }
